@@ -71,7 +71,8 @@ type c05Owner struct {
 }
 
 type c05PodObj struct {
-	Pod   string `json:"pod"`
+	Pod   string `json:"pod"`            // identity of the pod object = its uid
+	Name  string `json:"name,omitempty"` // object name ("" = same as the uid); a re-created pod keeps the name and gets a new uid
 	Ns    string `json:"ns"`
 	App   string `json:"app"`
 	Ctrl  string `json:"ctrl"`
@@ -216,10 +217,17 @@ func c05Reservation(o *c05Op) *schedulingv1alpha1.Reservation {
 	return r
 }
 
+func (p *c05PodObj) name() string {
+	if p.Name != "" {
+		return p.Name
+	}
+	return p.Pod
+}
+
 // c05Pod builds the API object of an abstract pod.
 func c05Pod(p *c05PodObj, aff string) *corev1.Pod {
 	pod := &corev1.Pod{
-		ObjectMeta: metav1.ObjectMeta{Name: p.Pod, Namespace: p.Ns, UID: types.UID(p.Pod), Labels: map[string]string{}, Annotations: map[string]string{}},
+		ObjectMeta: metav1.ObjectMeta{Name: p.name(), Namespace: p.Ns, UID: types.UID(p.Pod), Labels: map[string]string{}, Annotations: map[string]string{}},
 		Spec: corev1.PodSpec{NodeName: p.PNode, Containers: []corev1.Container{{Name: "c",
 			Resources: corev1.ResourceRequirements{Requests: c05RL(p.Req)}}}},
 	}
@@ -456,6 +464,7 @@ func c05V(v c05Vec) map[string]int64 {
 
 func c05PodFields(ev vu.Ev, p *c05PodObj) {
 	ev["pod"], ev["ns"], ev["app"], ev["ctrl"], ev["pnode"], ev["ra"], ev["req"], ev["dead"] = p.Pod, p.Ns, p.App, p.Ctrl, p.PNode, p.Ra, c05V(p.Req), p.Dead
+	ev["name"] = p.name()
 }
 
 // the event echoes the operation with every argument written out (a trace is also a script)
@@ -548,10 +557,11 @@ type c05Gen struct {
 	out  []c05Op
 	nR   int
 	nP   int
+	gen  int // uids handed out to re-created pods
 }
 
 var c05Apps = []string{"a", "b"}
-var c05Ctrls = []string{"", "rs1", "rs2"}
+var c05Ctrls = []string{"rs1", "rs1", "rs2", ""} // p1 (ns1) and p2 (ns2) are controlled by homonymous controllers
 var c05Nss = []string{"ns1", "ns2"}
 
 func (g *c05Gen) q(max int64) int64 {
@@ -604,6 +614,12 @@ func (g *c05Gen) owners() ([]c05Owner, bool) {
 		return []c05Owner{{Sel: "a"}, {Sel: "b"}}, false
 	case 11:
 		return []c05Owner{{Sel: "a"}}, true // one good term and one unparsable term
+	case 12, 13: // a controller in ONE namespace: the homonymous controller of the other namespace does not own it
+		return []c05Owner{{Ctrl: "rs1", CtrlNs: c05Nss[g.rng.Intn(2)]}}, false
+	case 14:
+		return []c05Owner{{Sel: "a", Ctrl: "rs1", CtrlNs: c05Nss[g.rng.Intn(2)]}}, false
+	case 15:
+		return []c05Owner{{Ctrl: "rs1", CtrlNs: "ns1"}, {Ctrl: "rs2", CtrlNs: "ns2"}}, false
 	default:
 		return []c05Owner{{}}, false
 
@@ -761,7 +777,29 @@ func (g *c05Gen) reservationStep() {
 
 func (g *c05Gen) podObj(id string) *c05PodObj {
 	i := int(id[1] - '1')
-	return &c05PodObj{Pod: id, Ns: c05Nss[i%2], App: c05Apps[(i/2)%2], Ctrl: c05Ctrls[i%3], Req: g.vec(3, false)}
+	return &c05PodObj{Pod: id, Ns: c05Nss[i%2], App: c05Apps[(i/2)%2], Ctrl: c05Ctrls[i%4], Req: g.vec(3, false)}
+}
+
+// replaced: the pod named id was deleted and re-created (StatefulSet pod) and a re-list merged both into ONE update event:
+// the old and the new object are different pods (same namespace / name, different uids). The new pod is bound, mostly
+// running (sometimes already terminated) and carries reservation ra ("" = none); the old pod is gone.
+func (g *c05Gen) replaced(id string, ra string) {
+	cur := g.pods[id]
+	old := *cur
+	g.gen++
+	cur.Name, cur.Pod = cur.name(), fmt.Sprintf("%s.%d", cur.name(), g.gen)
+	cur.Ra, cur.Dead = ra, false
+	if g.rng.Intn(4) == 0 {
+		// the re-created pod is already terminated when the merged update arrives: both pods hold nothing any more
+		cur.Dead = true
+	}
+	if g.rng.Intn(2) == 0 {
+		cur.Req = g.vec(3, false)
+	}
+	if ra != "" {
+		cur.PNode = g.nodeOf(ra)
+	}
+	g.emit(c05Op{Op: "podUpdate", c05PodObj: *cur, Old: &old})
 }
 
 func (g *c05Gen) anyR() string { return fmt.Sprintf("r%d", 1+g.rng.Intn(g.nR)) }
@@ -849,6 +887,8 @@ func (g *c05Gen) podStep() {
 		g.emit(c05Op{Op: "podUpdate", c05PodObj: *cur, Old: &old})
 	case k == 5 && cur.PNode != "": // duplicate add of a known object
 		g.emit(c05Op{Op: "podAdd", c05PodObj: *cur})
+	case k == 6 && cur.PNode != "": // deleted and re-created under the same name, seen as one update: same or another reservation
+		g.replaced(id, []string{cur.Ra, cur.Ra, g.likelyR(), ""}[g.rng.Intn(4)])
 	case k >= 7:
 		delete(g.pods, id)
 		g.emit(c05Op{Op: "podDelete", c05PodObj: *cur})
@@ -963,6 +1003,8 @@ func c05LedgerScenario(rng *rand.Rand, big bool) []c05Op {
 		case k == 6:
 			delete(g.pods, id)
 			g.emit(c05Op{Op: "podDelete", c05PodObj: *cur})
+		case k == 7: // re-created under the same name, seen as one update: stays on its reservation or takes the other one
+			g.replaced(id, []string{cur.Ra, cur.Ra, u}[g.rng.Intn(3)])
 		default:
 			q := g.podObj("p4")
 			g.emit(c05Op{Op: "fit", R: u, Pre: c05Vec{}, c05PodObj: *q})
@@ -1030,6 +1072,70 @@ func c05OnceScenario(rng *rand.Rand) []c05Op {
 			ask()
 		}
 	}
+	ask()
+	return g.out
+}
+
+// directed random histories for (F) at NOMINATION: one (sometimes two) reservations on one node, mostly Restricted and
+// nearly full; pods with and without a reservation affinity ask for a nomination. The node itself always has room, so
+// the Filter phase lets a pod without affinity through on the node alone - the nomination must still respect what the
+// restricted reservation has left.
+func c05NominateFitScenario(rng *rand.Rand) []c05Op {
+	g := &c05Gen{rng: rng, api: map[string]*c05Op{}, asm: map[string]string{}, pods: map[string]*c05PodObj{}, pasm: map[string]string{}, nR: 2, nP: 4}
+	n := c05Nodes[g.rng.Intn(2)]
+	nres := 1
+	if g.rng.Intn(3) == 0 {
+		nres = 2
+	}
+	for i := 1; i <= nres; i++ {
+		r := &c05Op{R: fmt.Sprintf("r%d", i), Node: n, Phase: "Available", Policy: []string{"Restricted", "Restricted", "Restricted", "Aligned", "Default"}[g.rng.Intn(5)],
+			Alloc: c05Vec{"cpu": int64(2 + g.rng.Intn(3)), "memory": int64(2 + g.rng.Intn(3))}, Reserved: c05Vec{}, Owners: []c05Owner{{}}}
+		switch g.rng.Intn(6) {
+		case 0:
+			r.Ropts = []string{"cpu"}
+		case 1:
+			r.Alloc = c05Vec{"cpu": int64(2 + g.rng.Intn(3))}
+		case 2:
+			r.Alloc["pods"] = int64(1 + g.rng.Intn(2))
+		case 3:
+			r.Reserved = c05Vec{"cpu": 1}
+		}
+		g.api[r.R] = r
+		g.emit(g.robj("rAdd", r))
+	}
+	ask := func() {
+		q := g.podObj(fmt.Sprintf("p%d", 1+g.rng.Intn(g.nP)))
+		q.Pod = "q" + q.Pod[1:] // a pod that holds nothing
+		q.Name = ""
+		q.Req = c05Vec{"cpu": int64(1 + g.rng.Intn(3))}
+		if g.rng.Intn(3) == 0 {
+			q.Req["memory"] = int64(g.rng.Intn(4))
+		}
+		aff := []string{"", "", "", "sel", "name:r1"}[g.rng.Intn(5)]
+		g.emit(c05Op{Op: "nominate", Aff: aff, Node: n, c05PodObj: *q})
+	}
+	for len(g.out) < 16 {
+		g.maybeRestart()
+		id := fmt.Sprintf("p%d", 1+g.rng.Intn(g.nP))
+		u := fmt.Sprintf("r%d", 1+g.rng.Intn(nres))
+		cur := g.pods[id]
+		switch k := g.rng.Intn(9); {
+		case cur == nil && k < 4: // an owner takes a part of the reservation
+			cur = g.podObj(id)
+			cur.Req = c05Vec{"cpu": int64(1 + g.rng.Intn(2)), "memory": int64(g.rng.Intn(3))}
+			cur.PNode, cur.Ra = n, u
+			g.pods[id] = cur
+			g.emit(c05Op{Op: "podAdd", c05PodObj: *cur})
+		case cur != nil && k == 4:
+			delete(g.pods, id)
+			g.emit(c05Op{Op: "podDelete", c05PodObj: *cur})
+		case cur != nil && k == 5:
+			g.replaced(id, cur.Ra)
+		default:
+			ask()
+		}
+	}
+	ask()
 	ask()
 	return g.out
 }
@@ -1155,6 +1261,7 @@ func TestVerifC05(t *testing.T) {
 	for i := 0; i < n; i++ {
 		run(c05LedgerScenario(rng, i%3 == 2))
 		run(c05OnceScenario(rng))
+		run(c05NominateFitScenario(rng))
 	}
 	t.Logf("C05: %d segments, %d events", rec.Segments(), rec.Events())
 }
